@@ -4,6 +4,8 @@
 import Simpleline.Lemmas.ThreadCount
 
 namespace Simpleline.Threads
+open List
+variable {s s' : TState} {t : Nat} {e : Ev}
 
 theorem entryLe_refl (a : Int × Nat × Nat) : entryLe a a = true := by simp [entryLe]
 theorem entryLe_trans {a b c : Int × Nat × Nat} (h1 : entryLe a b = true) (h2 : entryLe b c = true) :
@@ -57,5 +59,307 @@ theorem minEntry_fifo {l : List (Int × Nat × Nat)} {m} (h : minEntry l = some 
   have := minEntry_le h e he
   simp only [entryLe, Bool.or_eq_true, decide_eq_true_eq, Bool.and_eq_true, beq_iff_eq] at this
   omega
+
+/-! ### the history invariant: put records, arrival numbers, dispatch order -/
+
+/-- the accesses that change queue contents / `dispatched` -/
+def Ev.isQueueOp : Ev → Bool
+  | .put .. | .get .. | .putBack .. => true
+  | _ => false
+
+theorem queue_frame (hs : TStep s t e s') (he : e.isQueueOp = false) :
+    (∀ q, (s'.q q).entries = (s.q q).entries) ∧ (∀ q, (s'.q q).seq = (s.q q).seq) ∧
+      s'.dispatched = s.dispatched ∧ s'.lastTaken = s.lastTaken := by
+  cases hs <;> simp [Ev.isQueueOp] at he <;> refine ⟨?_, ?_, ?_, ?_⟩ <;> (try intro q) <;> grind
+
+theorem puts_snoc (pre : List (Nat × Ev)) (t : Nat) (e : Ev) : puts (pre ++ [(t, e)]) = puts pre ++ e.putRec := by
+  simp [puts]
+
+theorem putRec_of_not_queueOp (he : e.isQueueOp = false) : e.putRec = [] := by
+  cases e <;> simp_all [Ev.isQueueOp, Ev.putRec]
+
+/-- ids put so far -/
+def putIds (sched : List (Nat × Ev)) : List Nat := (puts sched).map (·.2.1)
+
+theorem cntPut_step (hs : TStep s t e s') (a : Nat) :
+    count a s'.preIds + count a (e.putRec.map (·.2.1)) = count a s.preIds + count a e.newId := by
+  have hle := count_preId_le s t a
+  cases hs
+  all_goals try subst_vars
+  all_goals
+    simp [*, count_preIds_setPc_sub, Ev.newId, Ev.putRec] at hle ⊢
+  all_goals omega
+
+theorem cntPut_run {src0 : List Nat} {sched : List (Nat × Ev)} {s : TState}
+    (hr : run (initState src0) sched = some s) (a : Nat) :
+    count a (putIds sched) + count a s.preIds = count a (submitted sched) := by
+  refine run_induction (P := fun sched s => count a (putIds sched) + count a s.preIds = count a (submitted sched))
+    ?_ ?_ sched s hr
+  · simp [putIds, puts, initState, TState.preIds, submitted]
+  · intro pre s t e s' hpre ih hs _
+    have := cntPut_step hs a
+    simp only [putIds, puts_snoc, submitted_snoc, List.map_append, count_append] at ih ⊢
+    omega
+
+/-- put records: `(queue, id, priority, arrival number)` -/
+abbrev PutRec := Nat × Nat × Int × Nat
+
+/-- the history invariant behind FIFO: `P` = the put records of the schedule so far -/
+structure FInv (P : List PutRec) (s : TState) : Prop where
+  lt : ∀ r ∈ P, r.2.2.2 < (s.q r.1).seq
+  acc : ∀ r ∈ P, (r.2.2.1, r.2.2.2, r.2.1) ∈ (s.q r.1).entries ∨ (r.1, r.2.1) ∈ s.dispatched
+  recd : ∀ q, ∀ e ∈ (s.q q).entries, (q, e.2.2, e.1, e.2.1) ∈ P
+  taken : ∀ q m, s.lastTaken = some (q, m) → (q, m.2.2, m.1, m.2.1) ∈ P
+  mono : P.Pairwise fun r1 r2 => r1.1 = r2.1 → r1.2.2.2 < r2.2.2.2
+  fifo : ∀ r1 ∈ P, ∀ r2 ∈ P, r1.1 = r2.1 → r1.2.2.1 = r2.2.2.1 → r1.2.2.2 < r2.2.2.2 →
+    ∀ l1 l2, s.dispatched = l1 ++ (r2.1, r2.2.1) :: l2 → (r1.1, r1.2.1) ∈ l2
+
+theorem FInv.congr {P : List PutRec} (hf : FInv P s) (hent : ∀ q, (s'.q q).entries = (s.q q).entries)
+    (hseq : ∀ q, (s'.q q).seq = (s.q q).seq) (hd : s'.dispatched = s.dispatched)
+    (hlt : s'.lastTaken = s.lastTaken) : FInv P s' := by
+  refine ⟨?_, ?_, ?_, ?_, hf.mono, ?_⟩
+  · intro r hr; rw [hseq]; exact hf.lt r hr
+  · intro r hr; rw [hent, hd]; exact hf.acc r hr
+  · intro q e he; rw [hent] at he; exact hf.recd q e he
+  · intro q m h; rw [hlt] at h; exact hf.taken q m h
+  · intro r1 h1 r2 h2 hq hp ho l1 l2 hl; rw [hd] at hl; exact hf.fifo r1 h1 r2 h2 hq hp ho l1 l2 hl
+
+theorem FInv.put {P : List PutRec} (hf : FInv P s) (q0 sid : Nat) (prio : Int)
+    (hent : ∀ q, (s'.q q).entries = if q = q0 then (prio, (s.q q0).seq, sid) :: (s.q q0).entries else (s.q q).entries)
+    (hseq : ∀ q, (s'.q q).seq = if q = q0 then (s.q q0).seq + 1 else (s.q q).seq)
+    (hd : s'.dispatched = s.dispatched) (hlt : s'.lastTaken = s.lastTaken)
+    (hsid : ∀ q, (q, sid) ∉ s.dispatched) : FInv (P ++ [(q0, sid, prio, (s.q q0).seq)]) s' := by
+  refine ⟨?_, ?_, ?_, ?_, ?_, ?_⟩
+  · intro r hr
+    rw [hseq]
+    rcases List.mem_append.1 hr with hr | hr
+    · have := hf.lt r hr; split <;> rename_i hc
+      · rw [hc] at this; omega
+      · exact this
+    · simp at hr; subst hr; simp
+  · intro r hr
+    rw [hent, hd]
+    rcases List.mem_append.1 hr with hr | hr
+    · rcases hf.acc r hr with h | h
+      · left; split <;> rename_i hc
+        · rw [hc] at h; exact List.mem_cons_of_mem _ h
+        · exact h
+      · exact Or.inr h
+    · simp at hr; subst hr; left; simp
+  · intro q e he
+    rw [hent] at he
+    split at he <;> rename_i hc
+    · rcases List.mem_cons.1 he with rfl | he
+      · subst hc; simp
+      · subst hc; exact List.mem_append_left _ (hf.recd q e he)
+    · exact List.mem_append_left _ (hf.recd q e he)
+  · intro q m h; rw [hlt] at h; exact List.mem_append_left _ (hf.taken q m h)
+  · rw [List.pairwise_append]
+    refine ⟨hf.mono, by simp, ?_⟩
+    intro r1 h1 r2 h2
+    simp at h2; subst h2
+    intro hq; simp at hq
+    have := hf.lt r1 h1; rw [hq] at this; exact this
+  · intro r1 h1 r2 h2 hq hp ho l1 l2 hl
+    rw [hd] at hl
+    rcases List.mem_append.1 h2 with h2 | h2
+    · rcases List.mem_append.1 h1 with h1 | h1
+      · exact hf.fifo r1 h1 r2 h2 hq hp ho l1 l2 hl
+      · simp at h1; subst h1
+        have := hf.lt r2 h2
+        simp at hq ho; rw [← hq] at this; omega
+    · simp at h2; subst h2
+      exact absurd (by rw [hl]; simp) (hsid q0)
+
+/-- with distinct ids a put record is determined by its id -/
+theorem rec_unique {P : List PutRec} (hnd : (P.map (·.2.1)).Nodup) {r1 r2 : PutRec} (h1 : r1 ∈ P) (h2 : r2 ∈ P)
+    (hid : r1.2.1 = r2.2.1) : r1 = r2 := by
+  induction P with
+  | nil => simp at h1
+  | cons x P ih =>
+    simp only [List.map_cons, List.nodup_cons] at hnd
+    have key : ∀ r ∈ P, r.2.1 ≠ x.2.1 := fun r hr e =>
+      hnd.1 (e ▸ List.mem_map_of_mem (f := fun r : PutRec => r.2.1) hr)
+    rcases List.mem_cons.1 h1 with e1 | h1' <;> rcases List.mem_cons.1 h2 with e2 | h2'
+    · rw [e1, e2]
+    · subst e1; exact absurd hid.symm (key r2 h2')
+    · subst e2; exact absurd hid (key r1 h1')
+    · exact ih hnd.2 h1' h2'
+
+theorem FInv.get {P : List PutRec} (hf : FInv P s) (q0 : Nat) (m : Int × Nat × Nat)
+    (hm : minEntry (s.q q0).entries = some m)
+    (hent : ∀ q, (s'.q q).entries = if q = q0 then (s.q q0).entries.erase m else (s.q q).entries)
+    (hseq : ∀ q, (s'.q q).seq = (s.q q).seq)
+    (hd : s'.dispatched = (q0, m.2.2) :: s.dispatched) (hlt : s'.lastTaken = some (q0, m))
+    (hnd : (P.map (·.2.1)).Nodup) : FInv P s' := by
+  have hmem := minEntry_mem hm
+  have hmrec := hf.recd q0 m hmem
+  refine ⟨?_, ?_, ?_, ?_, hf.mono, ?_⟩
+  · intro r hr; rw [hseq]; exact hf.lt r hr
+  · intro r hr
+    rw [hent, hd]
+    rcases hf.acc r hr with h | h
+    · by_cases hc : r.1 = q0 ∧ (r.2.2.1, r.2.2.2, r.2.1) = m
+      · right; rw [← hc.1, ← hc.2]; simp
+      · left; split <;> rename_i hc'
+        · have hne : (r.2.2.1, r.2.2.2, r.2.1) ≠ m := fun e => hc ⟨hc', e⟩
+          rw [hc'] at h
+          exact (List.mem_erase_of_ne hne).2 h
+        · exact h
+    · exact Or.inr (List.mem_cons_of_mem _ h)
+  · intro q e he
+    rw [hent] at he
+    split at he <;> rename_i hc
+    · subst hc; exact hf.recd q e (List.mem_of_mem_erase he)
+    · exact hf.recd q e he
+  · intro q m' h
+    rw [hlt] at h; simp at h; obtain ⟨rfl, rfl⟩ := h; exact hmrec
+  · intro r1 h1 r2 h2 hq hp ho l1 l2 hl
+    rw [hd] at hl
+    cases l1 with
+    | nil =>
+      simp only [List.nil_append, List.cons.injEq, Prod.mk.injEq] at hl
+      obtain ⟨⟨hq2, hid⟩, rfl⟩ := hl
+      -- `r2` is the record of `m`
+      have : r2 = (q0, m.2.2, m.1, m.2.1) := rec_unique hnd h2 hmrec hid.symm
+      subst this
+      simp only at hq hp ho
+      rcases hf.acc r1 h1 with h | h
+      · exfalso
+        rw [hq] at h
+        have := minEntry_fifo hm _ h (by simpa using hp)
+        simp at this; omega
+      · rw [hq] at h ⊢; exact hq ▸ h
+    | cons d l1 =>
+      simp only [List.cons_append, List.cons.injEq] at hl
+      exact hf.fifo r1 h1 r2 h2 hq hp ho l1 l2 hl.2
+
+theorem FInv.putBack {P : List PutRec} (hf : FInv P s) (q0 : Nat) (m : Int × Nat × Nat) (ds : List (Nat × Nat))
+    (hlt : s.lastTaken = some (q0, m)) (hd : s.dispatched = (q0, m.2.2) :: ds)
+    (hent : ∀ q, (s'.q q).entries = if q = q0 then m :: (s.q q0).entries else (s.q q).entries)
+    (hseq : ∀ q, (s'.q q).seq = (s.q q).seq)
+    (hd' : s'.dispatched = ds) (hlt' : s'.lastTaken = none)
+    (hnd : (P.map (·.2.1)).Nodup) : FInv P s' := by
+  have hmrec := hf.taken q0 m hlt
+  refine ⟨?_, ?_, ?_, ?_, hf.mono, ?_⟩
+  · intro r hr; rw [hseq]; exact hf.lt r hr
+  · intro r hr
+    rw [hent, hd']
+    rcases hf.acc r hr with h | h
+    · left; split <;> rename_i hc
+      · rw [hc] at h; exact List.mem_cons_of_mem _ h
+      · exact h
+    · rw [hd] at h
+      rcases List.mem_cons.1 h with h | h
+      · simp only [Prod.mk.injEq] at h
+        have : r = (q0, m.2.2, m.1, m.2.1) := rec_unique hnd hr hmrec h.2
+        subst this
+        left; simp
+      · exact Or.inr h
+  · intro q e he
+    rw [hent] at he
+    split at he <;> rename_i hc
+    · subst hc
+      rcases List.mem_cons.1 he with rfl | he
+      · exact hmrec
+      · exact hf.recd q e he
+    · exact hf.recd q e he
+  · intro q m' h; rw [hlt'] at h; simp at h
+  · intro r1 h1 r2 h2 hq hp ho l1 l2 hl
+    rw [hd'] at hl
+    exact hf.fifo r1 h1 r2 h2 hq hp ho ((q0, m.2.2) :: l1) l2 (by rw [hd, hl]; simp)
+
+theorem finv_step (h : TInv s) (hq : QInv s) {P : List PutRec} (hf : FInv P s) (hs : TStep s t e s')
+    (hnd : ((P ++ e.putRec).map (·.2.1)).Nodup)
+    (hdisp : ∀ x ∈ (s.pc t).preId, x ∉ s.dispatchedIds) : FInv (P ++ e.putRec) s' := by
+  have hndP : (P.map (·.2.1)).Nodup := by
+    rw [List.map_append, List.nodup_append] at hnd; exact hnd.1
+  by_cases he : e.isQueueOp = false
+  · obtain ⟨h1, h2, h3, h4⟩ := queue_frame hs he
+    rw [putRec_of_not_queueOp he, List.append_nil]
+    exact hf.congr h1 h2 h3 h4
+  · have hv := h.valid t
+    cases hs <;> simp [Ev.isQueueOp] at he
+    case put sg q0 f hpc =>
+      simp only [hpc, PC.valid.eq_5] at hv
+      simp only [Ev.putRec]
+      refine hf.put q0 sg.sid sg.prio ?_ ?_ rfl rfl ?_
+      · intro q; by_cases hc : q = q0 <;> simp [setQ_q, hc, hv]
+      · intro q; by_cases hc : q = q0 <;> simp [setQ_q, hc, hv]
+      · intro q hmem
+        exact hdisp sg.sid (by simp [hpc]) (List.mem_map_of_mem (f := fun x : Nat × Nat => x.2) hmem)
+    case get m hpc ht hm =>
+      simp only [Ev.putRec, List.append_nil]
+      have ha := h.actValid
+      refine hf.get s.active m hm ?_ ?_ rfl rfl hndP
+      · intro q; by_cases hc : q = s.active <;> simp [setQ_q, hc, ha]
+      · intro q; by_cases hc : q = s.active <;> simp [setQ_q, hc, ha]
+    case putBack q m d ds hpc ht hlt hd =>
+      simp only [Ev.putRec, List.append_nil]
+      obtain ⟨hqv, ⟨ds', hds⟩, _, _⟩ := hq.taken q m hlt
+      have : ds' = ds := by rw [hds] at hd; injection hd
+      subst this
+      refine hf.putBack q m ds' hlt hds ?_ ?_ rfl rfl hndP
+      · intro q'; by_cases hc : q' = q <;> simp [setQ_q, hc, hqv]
+      · intro q'; by_cases hc : q' = q <;> simp [setQ_q, hc, hqv]
+
+theorem distinct_prefix {pre : List (Nat × Ev)} {x : Nat × Ev} (h : DistinctIds (pre ++ [x])) : DistinctIds pre := by
+  unfold DistinctIds submitted at *
+  rw [List.flatMap_append, List.nodup_append] at h
+  exact h.1
+
+theorem putIds_nodup {src0 : List Nat} {sched : List (Nat × Ev)} {s : TState}
+    (hr : run (initState src0) sched = some s) (hd : DistinctIds sched) : (putIds sched).Nodup := by
+  rw [List.nodup_iff_count]
+  intro a
+  have h1 := cntPut_run hr a
+  have h2 := (List.nodup_iff_count.1 hd) a
+  omega
+
+theorem preId_not_dispatched {src0 : List Nat} {sched : List (Nat × Ev)} {s : TState}
+    (hr : run (initState src0) sched = some s) (hd : DistinctIds sched) (t : Nat) :
+    ∀ x ∈ (s.pc t).preId, x ∉ s.dispatchedIds := by
+  intro x hx hx'
+  have h1 := cnt_run hr x
+  have h2 := (List.nodup_iff_count.1 hd) x
+  have h3 := count_preId_le s t x
+  have h4 : 0 < count x (s.pc t).preId := List.count_pos_iff.2 hx
+  have h5 : 0 < count x s.dispatchedIds := List.count_pos_iff.2 hx'
+  unfold TState.cnt at h1
+  omega
+
+theorem finv_run {src0 : List Nat} {sched : List (Nat × Ev)} {s : TState}
+    (hr : run (initState src0) sched = some s) (hd : DistinctIds sched) : FInv (puts sched) s := by
+  refine run_induction (P := fun sched s => DistinctIds sched → FInv (puts sched) s) ?_ ?_ sched s hr hd
+  · intro _
+    refine ⟨?_, ?_, ?_, ?_, ?_, ?_⟩ <;> simp [puts, init_q_entries]
+    simp [initState]
+  · intro pre s t e s' hpre ih hs hrun hd'
+    have hreach : TReach src0 s := ⟨pre, hpre⟩
+    have hdp := distinct_prefix hd'
+    rw [puts_snoc]
+    refine finv_step (tinv_reach hreach) (qcinv_reach hreach).1 (ih hdp) hs ?_ (preId_not_dispatched hpre hdp t)
+    have := putIds_nodup hrun hd'
+    rwa [putIds, puts_snoc] at this
+
+/-- FIFO among equal priorities, on the history: of two signals put into the same queue with the same priority,
+if the later-put one has been dispatched then the earlier-put one has been dispatched before it -/
+theorem fifo_dispatch {src0 : List Nat} {sched : List (Nat × Ev)} {s : TState}
+    (hr : run (initState src0) sched = some s) (hd : DistinctIds sched)
+    {q a b : Nat} {p : Int} {oa ob : Nat} {P1 P2 P3 : List PutRec}
+    (hp : puts sched = P1 ++ (q, a, p, oa) :: (P2 ++ (q, b, p, ob) :: P3))
+    (hb : (q, b) ∈ s.dispatched) :
+    oa < ob ∧ ∃ l1 l2, s.dispatched = l1 ++ (q, b) :: l2 ∧ (q, a) ∈ l2 := by
+  have hf := finv_run hr hd
+  have hlt : oa < ob := by
+    have := hf.mono
+    rw [hp, List.pairwise_append] at this
+    have h2 := this.2.1
+    rw [List.pairwise_cons] at h2
+    exact h2.1 (q, b, p, ob) (by simp) rfl
+  refine ⟨hlt, ?_⟩
+  obtain ⟨l1, l2, hl⟩ := List.append_of_mem hb
+  refine ⟨l1, l2, hl, ?_⟩
+  exact hf.fifo (q, a, p, oa) (by rw [hp]; simp) (q, b, p, ob) (by rw [hp]; simp) rfl rfl hlt l1 l2 hl
 
 end Simpleline.Threads
